@@ -1194,4 +1194,88 @@ theorem encEntry_length_le (e : Entry) : (encEntry e).length ≤ Facts.sstEntryO
   rw [entry_overhead_eq]
   simp only [encEntry, encVar, encTomb, List.length_append, leBytes_length]
   split <;> simp [leBytes_length] <;> omega
+
+theorem sizesOk_all_lt {target M bound : Nat} (R : List (List Entry)) (h : SizesOk target M bound R)
+    (hb : target + M ≤ bound) : ∀ c ∈ R, sumSize c < bound := by
+  induction R with
+  | nil => simp
+  | cons c R ih =>
+    cases R with
+    | nil => intro x hx; simp at hx; subst hx; exact h
+    | cons d rest =>
+      obtain ⟨hc, hrest⟩ := h
+      intro x hx
+      simp only [List.mem_cons] at hx
+      rcases hx with rfl | hx
+      · omega
+      · exact ih hrest x (by simpa using hx)
+
+theorem flushBits_ge : offMod ≤ 2 ^ Facts.sstFlushSizeBits := by decide
+
+theorem encEntries_le_sumSize (c : List Entry)
+    (h : ∀ e ∈ c, Facts.sstEntryOverhead + e.key.length + e.val.length < 2 ^ Facts.sstFlushSizeBits) :
+    (encEntries c).length ≤ sumSize c := by
+  induction c with
+  | nil => simp [encEntries, sumSize]
+  | cons e c ih =>
+    have he := h e (by simp)
+    have := ih (fun x hx => h x (by simp [hx]))
+    have hle := encEntry_length_le e
+    simp only [encEntries, List.length_append, sumSize, List.map_cons, List.sum_cons, flushSize,
+      Nat.mod_eq_of_lt he] at this ⊢
+    omega
+
+/-- every table of `WriteRun` stays below the `uint32` offset limit as soon as one maximal table does:
+`floor(1.5·target)` plus one entry -/
+theorem writeRun_table_bytes (target : Nat) (ht : 0 < target) (es : List Entry) (M : Nat)
+    (hM : ∀ e ∈ es, Facts.sstEntryOverhead + e.key.length + e.val.length ≤ M)
+    (hfit : maxBuffer target + M ≤ offMod) :
+    ∀ c ∈ writeRun target es, (encEntries c).length < offMod := by
+  intro c hc
+  have hmem : ∀ e ∈ c, e ∈ es := by
+    intro e he
+    rw [← writeRun_flatten target es]; exact List.mem_flatten.mpr ⟨c, hc, he⟩
+  have hMlt : M < 2 ^ Facts.sstFlushSizeBits := by
+    have := flushBits_ge
+    have := (maxBuffer_bounds target).1
+    omega
+  have hraw : ∀ e ∈ es, Facts.sstEntryOverhead + e.key.length + e.val.length < 2 ^ Facts.sstFlushSizeBits :=
+    fun e he => Nat.lt_of_le_of_lt (hM e he) hMlt
+  have hfs : ∀ e ∈ es, flushSize e ≤ M := by
+    intro e he
+    simp only [flushSize, Nat.mod_eq_of_lt (hraw e he)]; exact hM e he
+  have hok := writeRun_sizesOk target ht es M hfs
+  have := sizesOk_all_lt _ hok (by have := (maxBuffer_bounds target).1; omega) c hc
+  have := encEntries_le_sumSize c (fun e he => hraw e (hmem e he))
+  omega
+
+/-- `Get` with ANY bloom filter in place of the writer's: a filter may only say "no" for absent keys to be
+harmless; whenever it says "yes" (true positives and false positives alike) search + scan decide -/
+theorem get_any_bloom (b : Bloom) (es : List Entry) (hwf : ∀ e ∈ es, e.WF) (hs : SortedKeys es)
+    (hsz : (encEntries es).length < offMod) (key : Bytes) :
+    get ⟨b, (metaOf es).offsets⟩ (encEntries es).length (encTable es) key
+      = if b.mightHave key then GetRes.ofOption (lookup es key) else GetRes.notFound := by
+  by_cases hb : b.mightHave key = true
+  · have h := get_encTable es hwf hs hsz key
+    by_cases hb' : (bloomOf es).mightHave key = true
+    · unfold get at h ⊢
+      simp only [metaOf, hb, hb', Bool.not_true, Bool.false_eq_true, if_false, if_true] at h ⊢
+      exact h
+    · -- the writer's filter says no, so the key is absent; redo the search/scan argument
+      have hb'' : (bloomOf es).mightHave key = false := by simpa using hb'
+      have hnone := lookup_none_of_bloom es key hb''
+      unfold get
+      simp only [metaOf, hb, Bool.not_true, Bool.false_eq_true, if_false, if_true, take_entries]
+      obtain ⟨pre, bs, h1, h2, h3⟩ := indexOffsets_blocks es 0 0 (by omega)
+      have hpre : pre = [] := h3 (Nat.zero_mod _)
+      subst hpre
+      simp only [List.nil_append, encEntries, List.length_nil, Nat.add_zero] at h1 h2
+      rw [h2]
+      by_cases hne : bs = []
+      · subst hne; subst h1
+        simp [blockOffsets, search, blocksFlat, encEntries, scanGet, beforeStop, lookup, GetRes.ofOption]
+      · subst h1
+        exact searchScan_blocks bs hne hwf hs key
+  · simp only [get, hb, Bool.false_eq_true, if_false]
+    simp
 end Rxn.Sst
